@@ -207,7 +207,8 @@ static bool ref_valid(const struct rpath *p, const struct rkeys *ks, bool *ski_m
 		ref_digest_input(p, k, &in);
 		for (int i = 0; i < ks->n && !ok; i++)
 			if (ks->k[i].asn == p->hop[k].asn && !memcmp(ks->k[i].ski, p->sig[k].ski, SKI_SIZE))
-				ok = ref_verify((uint8_t *)in.p, in.len, p->sig[k].sig, p->sig[k].len, ks->k[i].key);
+				ok = ks->k[i].key >= 0 && /* a registered SPKI that is not a public key verifies nothing */
+				     ref_verify((uint8_t *)in.p, in.len, p->sig[k].sig, p->sig[k].len, ks->k[i].key);
 		if (!ok)
 			all = false;
 	}
@@ -259,7 +260,10 @@ static void lib_keys(struct spki_table *t, const struct rkeys *ks)
 		memset(&r, 0, sizeof(r));
 		r.asn = ks->k[i].asn;
 		memcpy(r.ski, ks->k[i].ski, SKI_SIZE);
-		memcpy(r.spki, KEYS[ks->k[i].key].spki, SPKI_SIZE);
+		if (ks->k[i].key >= 0)
+			memcpy(r.spki, KEYS[ks->k[i].key].spki, SPKI_SIZE);
+		else
+			memset(r.spki, 0x5a, SPKI_SIZE); /* not a SubjectPublicKeyInfo at all */
 		r.socket = &M_SOCKS[0];
 		spki_table_add_entry(t, &r);
 	}
@@ -475,8 +479,9 @@ static void gen_nlri(void)
 }
 
 /* per-hop key configurations */
-enum { KC_RIGHT, KC_OTHER_AS, KC_WRONG_AND_RIGHT, KC_WRONG_ONLY, KC_ABSENT, KC__N };
-static const char *KC_NAME[KC__N] = {"right-key-right-AS", "right-key-only-under-another-AS", "wrong-key+right-key-same-SKI", "wrong-key-only", "SKI-absent"};
+enum { KC_RIGHT, KC_OTHER_AS, KC_WRONG_AND_RIGHT, KC_WRONG_ONLY, KC_ABSENT, KC_GARBAGE_ONLY, KC_GARBAGE_AND_RIGHT, KC_RIGHT_AND_GARBAGE, KC__N };
+static const char *KC_NAME[KC__N] = {"right-key-right-AS", "right-key-only-under-another-AS", "wrong-key+right-key-same-SKI", "wrong-key-only", "SKI-absent",
+				     "undecodable-key-only", "undecodable-key+right-key", "right-key+undecodable-key"};
 
 static void gen_keycfg(int maxhops)
 {
@@ -493,7 +498,7 @@ static void gen_keycfg(int maxhops)
 			for (long c = 0; c < total; c++) {
 				struct rkeys ks;
 				long cc = c;
-				char extra[300] = "\"keys\":[";
+				char extra[600] = "\"keys\":[";
 				char crumb[160];
 
 				ks.n = 0;
@@ -523,6 +528,20 @@ static void gen_keycfg(int maxhops)
 						break;
 					case KC_ABSENT:
 						break;
+					case KC_GARBAGE_ONLY:
+					case KC_GARBAGE_AND_RIGHT:
+					case KC_RIGHT_AND_GARBAGE:
+						if (cfg == KC_RIGHT_AND_GARBAGE) {
+							ks.k[ks.n++] = (struct rkey){p.hop[k].asn, KEYIDX[k], {0}};
+							memcpy(ks.k[ks.n - 1].ski, KEYS[KEYIDX[k]].ski, SKI_SIZE);
+						}
+						ks.k[ks.n++] = (struct rkey){p.hop[k].asn, -1, {0}};
+						memcpy(ks.k[ks.n - 1].ski, KEYS[KEYIDX[k]].ski, SKI_SIZE);
+						if (cfg == KC_GARBAGE_AND_RIGHT) {
+							ks.k[ks.n++] = (struct rkey){p.hop[k].asn, KEYIDX[k], {0}};
+							memcpy(ks.k[ks.n - 1].ski, KEYS[KEYIDX[k]].ski, SKI_SIZE);
+						}
+						break;
 					}
 				}
 				strcat(extra, "]");
@@ -534,7 +553,7 @@ static void gen_keycfg(int maxhops)
 				judge(&p, &ks, other_as ? "keycfg:key-under-another-AS" : "keycfg", extra);
 			}
 		}
-	vb_printf(&VR.notes, " [keycfg: 5 key-table configurations per hop, all combinations on 1..%d-hop paths, both AFIs]", maxhops);
+	vb_printf(&VR.notes, " [keycfg: 8 key-table configurations per hop, all combinations on 1..%d-hop paths, both AFIs]", maxhops);
 }
 
 static void flip(uint8_t *base, size_t bit)
